@@ -787,19 +787,27 @@ impl SeqSpec for StoreSpec {
     fn apply(&self, st: &mut St, op: &Op) -> Result<(), Fail> {
         let store = st.store.as_mut().expect("store present");
         match op {
+            // a refusal leaves the model unchanged, but only the refusals the unchanged library makes as well are tolerated
+            // (label: the operation as printed - it names the record / key - plus whether anything was removed / the store
+            // was finalised before, which is what the legitimate refusals depend on)
             Op::Put(r) => {
                 let d = r.bytes();
-                if let Ok(id) = store.put(&d) {
-                    st.model.issue(id, d, "put")?;
+                match store.put(&d) {
+                    Ok(id) => st.model.issue(id, d, "put")?,
+                    Err(e) => zverif::core::tolerate_refusal(&self.name(), &format!("{:?}/live={}/issued={}", op, st.model.live.len().min(3), st.model.issued.len().min(3)), &e.to_string())?,
                 }
             }
             Op::PutKey(k, r) => {
                 let d = r.bytes();
                 let key = KEYS[*k as usize].to_vec();
-                if let Some(Ok(id)) = store.put_with_key(&key, &d) {
-                    st.model.issue(id, d, "put_with_key")?;
-                    st.model.key_of.insert(id, key.clone());
-                    st.model.keys.entry(key).or_default().0.push(id);
+                match store.put_with_key(&key, &d) {
+                    Some(Ok(id)) => {
+                        st.model.issue(id, d, "put_with_key")?;
+                        st.model.key_of.insert(id, key.clone());
+                        st.model.keys.entry(key).or_default().0.push(id);
+                    }
+                    Some(Err(e)) => zverif::core::tolerate_refusal(&self.name(), &format!("{:?}/live={}/issued={}", op, st.model.live.len().min(3), st.model.issued.len().min(3)), &e.to_string())?,
+                    None => {}
                 }
             }
             Op::PutBatch(b) => {
@@ -815,8 +823,10 @@ impl SeqSpec for StoreSpec {
             }
             Op::Remove(j) => {
                 let id = st.model.nth_recent(*j).expect("enabled");
-                if store.remove(id).is_ok() {
-                    st.model.removed(id);
+                let was_live = st.model.live.contains_key(&id);
+                match store.remove(id) {
+                    Ok(_) => st.model.removed(id),
+                    Err(e) => zverif::core::tolerate_refusal(&self.name(), &format!("remove/live_record={was_live}"), &e.to_string())?,
                 }
             }
             Op::RemoveBatch(j, k) => {
